@@ -23,6 +23,9 @@ def run(ctx):
         allb = ctx.behaviours("trie", "Gen_Hexary", "Gen_Hexary.cfg", constants={"MaxOps": wl, "Depth": wl},
                               simulate="num=%d" % ctx.pick(70, 250), depth=wl + 1, seed=ctx.seed, timeout=ctx.pick(900, 3000),
                               javaopts="-Xss512m")
+        # directed: every history of 5 calls over {add 1/15/16/240 hashes, Finalize}: headers taken at lengths 1, 16, 17, 256,
+        # 272 ... are retained by the driver and compared again after every later call
+        allb += ctx.behaviours("trie", "Gen_Hexary", "Gen_Hexary_dir.cfg", timeout=ctx.pick(900, 3000), javaopts="-Xss512m")
         if not ctx.quick():  # long accumulators: crossing 4096 = 16^3 (each TLC step evaluates thousands of adds)
             allb += ctx.behaviours("trie", "Gen_Hexary", "Gen_Hexary.cfg", simulate="num=25", depth=9, seed=ctx.seed + 5,
                                    constants={"MaxOps": 8, "Depth": 8, "MaxLen": 9000, "AddSizes": "{1, 17, 255, 3839, 4096}"},
